@@ -170,7 +170,8 @@ func runFunc(eng *Engine, key, tier string, verbose bool) int {
 	} else {
 		pk = lemma.Pkg
 	}
-	if err := eng.load([]string{"./" + pk}); err != nil {
+	_ = pk
+	if err := eng.load(eng.packagesFor("")); err != nil {
 		fmt.Println("load error:", err)
 		return 2
 	}
@@ -251,6 +252,7 @@ func explain(res *FuncResult, o *Oblig) {
 		os.WriteFile(p, []byte(text), 0644)
 	}
 	r := solveText(text, 10000)
+	fmt.Println("    path:", strings.Join(o.Trace, " "))
 	fmt.Println("    explain:", r.Status, r.Solver)
 	if r.Status == "sat" {
 		vals := parseValues(r.Output)
